@@ -6,5 +6,6 @@ CONSTANTS
   MaxNALs = 3
   MaxNALs265 = 3
   EmitLen = 1
+  DevH265UpdaterComparesStored = FALSE
 INVARIANTS DesignAgrees EmitCases
 CHECK_DEADLOCK FALSE
